@@ -18,7 +18,8 @@ segments over an ordered field.  `broadcast_spec`: per-element and per-subset-el
 (exact clipping, the oracle the harness applies to the drawn artists).  `meets_visible` / `drawn_fractions_sum_one`: the mask `vis` of `plot_edges` (`_lines_cross_unit_cell | _line_fully_in_unit_cell`,
 modelled in `Plot.visible`) is true for every image that meets the open cell, so the pieces actually drawn add up to the whole edge,
 for every generic edge.  `needed_copies_drawn` / `polyOffsets_nodup`: `plot_plaquettes` draws every copy of a plaquette whose extent
-meets the cell, and none twice (convex or not). -/
+meets the cell, and none twice (convex or not); `covered_point_drawn`: a point of the open cell inside a periodic copy of the polygon (even–odd rule)
+is inside a copy that is drawn. -/
 
 namespace C16
 open Plot
@@ -805,5 +806,192 @@ theorem polyOffsets_nodup (pts : List (ℚ × ℚ)) : (polyOffsets pts).Nodup :=
 
 example : polyOffsets [((4 : ℚ) / 5, (1 : ℚ) / 5), ((6 : ℚ) / 5, (1 : ℚ) / 5), ((6 : ℚ) / 5, (4 : ℚ) / 5), ((4 : ℚ) / 5, (4 : ℚ) / 5)] = [(-1, 0), (0, 0)] := by
   decide +kernel
+
+/-! ### a point of the cell inside a copy of the polygon (even–odd rule) lies inside a copy that is drawn -/
+
+/-- the side of the polygon from `a` to `b` has its end points on different sides of the horizontal line `y = c` -/
+def straddle (c : ℚ) (ab : (ℚ × ℚ) × (ℚ × ℚ)) : Bool := decide (ab.1.2 < c) != decide (ab.2.2 < c)
+
+/-- where that side meets the line `y = c` -/
+def xAt (c : ℚ) (ab : (ℚ × ℚ) × (ℚ × ℚ)) : ℚ := ab.1.1 + (c - ab.1.2) / (ab.2.2 - ab.1.2) * (ab.2.1 - ab.1.1)
+
+def crossR (p : ℚ × ℚ) (ab : (ℚ × ℚ) × (ℚ × ℚ)) : Bool := straddle p.2 ab && decide (p.1 < xAt p.2 ab)
+def crossL (p : ℚ × ℚ) (ab : (ℚ × ℚ) × (ℚ × ℚ)) : Bool := straddle p.2 ab && decide (xAt p.2 ab < p.1)
+
+/-- even–odd rule: the ray from `p` to the right crosses the boundary an odd number of times -/
+def insideEO (p : ℚ × ℚ) (pts : List (ℚ × ℚ)) : Prop := ((cyclicPairs pts).countP (crossR p)) % 2 = 1
+
+/-- along a path, the number of steps that change a Boolean label has the parity of 'first label ≠ last label' -/
+theorem path_parity {α : Type} (f : α → Bool) : ∀ (l : List α) (a : α),
+    (((a :: l).zip l).countP fun uv => f uv.1 != f uv.2) % 2 = if f a = f (l.getLastD a) then 0 else 1 := by
+  intro l
+  induction l with
+  | nil => intro a; simp
+  | cons b t ih =>
+    intro a
+    rw [List.zip_cons_cons, List.countP_cons, List.getLastD_cons]
+    have h := ih b
+    generalize (((b :: t).zip t).countP fun uv => f uv.1 != f uv.2) = n at h ⊢
+    generalize f (t.getLastD b) = fl at h ⊢
+    cases hfa : f a <;> cases hfb : f b <;> cases fl <;> simp [hfa, hfb] at h ⊢ <;> omega
+
+/-- a closed polygon meets a horizontal line in an even number of sides -/
+theorem straddle_even (c : ℚ) (pts : List (ℚ × ℚ)) : ((cyclicPairs pts).countP (straddle c)) % 2 = 0 := by
+  cases pts with
+  | nil => simp [cyclicPairs]
+  | cons x xs =>
+    unfold cyclicPairs
+    have := path_parity (fun q : ℚ × ℚ => decide (q.2 < c)) (xs ++ [x]) x
+    have hl : (xs ++ [x]).getLastD x = x := by simp [List.getLastD_eq_getLast?]
+    rw [hl] at this
+    simp only [if_true] at this
+    have hfun : (straddle c) = fun uv : (ℚ × ℚ) × (ℚ × ℚ) => decide (uv.1.2 < c) != decide (uv.2.2 < c) := by
+      funext uv; rfl
+    rw [hfun]; exact this
+
+/-- `p` does not lie on the boundary of the polygon (no side meets the horizontal line through `p` exactly at `p`) -/
+def OffBoundary (p : ℚ × ℚ) (pts : List (ℚ × ℚ)) : Prop :=
+  ∀ ab ∈ cyclicPairs pts, straddle p.2 ab = true → xAt p.2 ab ≠ p.1
+
+theorem count_split (p : ℚ × ℚ) : ∀ (l : List ((ℚ × ℚ) × (ℚ × ℚ))), (∀ ab ∈ l, straddle p.2 ab = true → xAt p.2 ab ≠ p.1) →
+    l.countP (straddle p.2) = l.countP (crossR p) + l.countP (crossL p) := by
+  intro l
+  induction l with
+  | nil => intro _; rfl
+  | cons ab t ih =>
+    intro h
+    have iht := ih (fun x hx => h x (List.mem_cons_of_mem _ hx))
+    rw [List.countP_cons, List.countP_cons, List.countP_cons, iht]
+    by_cases hs : straddle p.2 ab = true
+    · have hne := h ab (by simp) hs
+      rcases lt_or_gt_of_ne hne with hlt | hgt
+      · have h1 : crossL p ab = true := by simp [crossL, hs, hlt]
+        have h2 : crossR p ab = false := by simp [crossR, hs, not_lt.mpr (le_of_lt hlt)]
+        simp [hs, h1, h2]; omega
+      · have h1 : crossR p ab = true := by simp [crossR, hs, hgt]
+        have h2 : crossL p ab = false := by simp [crossL, hs, not_lt.mpr (le_of_lt hgt)]
+        simp [hs, h1, h2]; omega
+    · have hs' : straddle p.2 ab = false := by simpa using hs
+      simp [crossR, crossL, hs']
+
+theorem exists_of_odd_count {α : Type} (q : α → Bool) (l : List α) (h : l.countP q % 2 = 1) : ∃ x ∈ l, q x = true := by
+  have : 0 < l.countP q := by omega
+  obtain ⟨x, hx, hq⟩ := List.countP_pos_iff.mp this
+  exact ⟨x, hx, hq⟩
+
+theorem cyclicPairs_mem {α : Type} (pts : List α) (ab : α × α) (h : ab ∈ cyclicPairs pts) : ab.1 ∈ pts ∧ ab.2 ∈ pts := by
+  cases pts with
+  | nil => simp [cyclicPairs] at h
+  | cons x xs =>
+    unfold cyclicPairs at h
+    obtain ⟨h1, h2⟩ := List.of_mem_zip h
+    constructor
+    · rcases List.mem_cons.mp h1 with h1 | h1
+      · rw [h1]; simp
+      · rcases List.mem_append.mp h1 with h1 | h1
+        · exact List.mem_cons_of_mem _ h1
+        · simp at h1; rw [h1]; simp
+    · rcases List.mem_append.mp h2 with h2 | h2
+      · exact List.mem_cons_of_mem _ h2
+      · simp at h2; rw [h2]; simp
+
+/-- where a straddling side meets the line lies between the `x`-coordinates of its end points -/
+theorem xAt_between (c : ℚ) (ab : (ℚ × ℚ) × (ℚ × ℚ)) (hs : straddle c ab = true) :
+    min ab.1.1 ab.2.1 ≤ xAt c ab ∧ xAt c ab ≤ max ab.1.1 ab.2.1 := by
+  obtain ⟨⟨a1, a2⟩, ⟨b1, b2⟩⟩ := ab
+  unfold straddle at hs
+  simp only [bne_iff_ne, ne_eq, decide_eq_decide] at hs
+  unfold xAt
+  simp only
+  have hden : b2 - a2 ≠ 0 := by
+    intro h
+    have : a2 = b2 := by linarith
+    subst this
+    exact hs Iff.rfl
+  set t := (c - a2) / (b2 - a2) with ht
+  have ht01 : 0 ≤ t ∧ t ≤ 1 := by
+    by_cases h1 : a2 < c
+    · have h2 : ¬ b2 < c := fun h => hs ⟨fun _ => h, fun _ => h1⟩
+      have h2' := not_lt.mp h2
+      have hpos : 0 < b2 - a2 := by linarith
+      constructor
+      · exact div_nonneg (by linarith) (le_of_lt hpos)
+      · rw [ht, div_le_one hpos]; linarith
+    · have h2 : b2 < c := by
+        by_contra h
+        exact hs ⟨fun h' => absurd h' h1, fun h' => absurd h' h⟩
+      have h1' := not_lt.mp h1
+      have hneg : b2 - a2 < 0 := by linarith
+      constructor
+      · exact div_nonneg_of_nonpos (by linarith) (le_of_lt hneg)
+      · rw [ht, div_le_one_of_neg hneg]; linarith
+  have e : a1 + t * (b1 - a1) = (1 - t) * a1 + t * b1 := by ring
+  rw [e]
+  constructor
+  · rcases le_total a1 b1 with h | h
+    · rw [min_eq_left h]; nlinarith [ht01.1, ht01.2]
+    · rw [min_eq_right h]; nlinarith [ht01.1, ht01.2]
+  · rcases le_total a1 b1 with h | h
+    · rw [max_eq_right h]; nlinarith [ht01.1, ht01.2]
+    · rw [max_eq_left h]; nlinarith [ht01.1, ht01.2]
+
+/-- a point inside the polygon (even–odd rule, not on its boundary) lies strictly inside the bounding box in `x` and within it in `y` -/
+theorem inside_bbox (p : ℚ × ℚ) (pts : List (ℚ × ℚ)) (hin : insideEO p pts) (hoff : OffBoundary p pts) :
+    (∃ v ∈ pts, v.1 < p.1) ∧ (∃ v ∈ pts, p.1 < v.1) ∧ (∃ v ∈ pts, v.2 < p.2) ∧ (∃ v ∈ pts, p.2 ≤ v.2) := by
+  have hsplit := count_split p (cyclicPairs pts) hoff
+  have heven := straddle_even p.2 pts
+  unfold insideEO at hin
+  have hL : (cyclicPairs pts).countP (crossL p) % 2 = 1 := by omega
+  obtain ⟨ab, habm, hab⟩ := exists_of_odd_count (crossR p) _ hin
+  obtain ⟨cd, hcdm, hcd⟩ := exists_of_odd_count (crossL p) _ hL
+  obtain ⟨ha, hb⟩ := cyclicPairs_mem pts ab habm
+  obtain ⟨hc, hd⟩ := cyclicPairs_mem pts cd hcdm
+  unfold crossR at hab; unfold crossL at hcd
+  simp only [Bool.and_eq_true, decide_eq_true_eq] at hab hcd
+  have bR := xAt_between p.2 ab hab.1
+  have bL := xAt_between p.2 cd hcd.1
+  refine ⟨?_, ?_, ?_, ?_⟩
+  · rcases le_total cd.1.1 cd.2.1 with h | h
+    · exact ⟨cd.1, hc, by rw [min_eq_left h] at bL; linarith [bL.1, hcd.2]⟩
+    · exact ⟨cd.2, hd, by rw [min_eq_right h] at bL; linarith [bL.1, hcd.2]⟩
+  · rcases le_total ab.1.1 ab.2.1 with h | h
+    · exact ⟨ab.2, hb, by rw [max_eq_right h] at bR; linarith [bR.2, hab.2]⟩
+    · exact ⟨ab.1, ha, by rw [max_eq_left h] at bR; linarith [bR.2, hab.2]⟩
+  · have hs := hab.1
+    unfold straddle at hs
+    simp only [bne_iff_ne, ne_eq, decide_eq_decide] at hs
+    by_cases h1 : ab.1.2 < p.2
+    · exact ⟨ab.1, ha, h1⟩
+    · have h2 : ab.2.2 < p.2 := by
+        by_contra h
+        exact hs ⟨fun h' => absurd h' h1, fun h' => absurd h' h⟩
+      exact ⟨ab.2, hb, h2⟩
+  · have hs := hab.1
+    unfold straddle at hs
+    simp only [bne_iff_ne, ne_eq, decide_eq_decide] at hs
+    by_cases h1 : ab.1.2 < p.2
+    · have h2 : ¬ ab.2.2 < p.2 := fun h => hs ⟨fun _ => h, fun _ => h1⟩
+      exact ⟨ab.2, hb, not_lt.mp h2⟩
+    · exact ⟨ab.1, ha, not_lt.mp h1⟩
+
+/-- **C16 (plaquettes, coverage)**: a point `q` of the open unit cell that lies inside the copy of the polygon shifted by
+    `(ox, oy)`, `ox, oy ∈ {−1, 0, 1}` (even–odd rule, `q` not on the copy's boundary) lies inside a copy that `plot_plaquettes`
+    draws: the offset `(ox, oy)` is among the drawn ones.  (The polygon has a corner in `[0,1)²`: the vertex its walk starts from.) -/
+theorem covered_point_drawn (pts : List (ℚ × ℚ)) (ox oy : ℤ) (hox : ox = -1 ∨ ox = 0 ∨ ox = 1) (hoy : oy = -1 ∨ oy = 0 ∨ oy = 1)
+    (hanchor : ∃ a ∈ pts, (0 ≤ a.1 ∧ a.1 < 1) ∧ (0 ≤ a.2 ∧ a.2 < 1))
+    (q : ℚ × ℚ) (hq : 0 < q.1 ∧ q.1 < 1 ∧ 0 < q.2 ∧ q.2 < 1)
+    (hin : insideEO (q.1 - (ox : ℚ), q.2 - (oy : ℚ)) pts) (hoff : OffBoundary (q.1 - (ox : ℚ), q.2 - (oy : ℚ)) pts) :
+    (ox, oy) ∈ polyOffsets pts := by
+  obtain ⟨⟨v1, hv1, h1⟩, ⟨v2, hv2, h2⟩, ⟨v3, hv3, h3⟩, ⟨v4, hv4, h4⟩⟩ := inside_bbox _ pts hin hoff
+  simp only at h1 h2 h3 h4
+  exact needed_copies_drawn pts ox oy hox hoy hanchor
+    ⟨⟨v1, hv1, by linarith [hq.2.1]⟩, ⟨v2, hv2, by linarith [hq.1]⟩⟩
+    ⟨⟨v3, hv3, by linarith [hq.2.2.2]⟩, ⟨v4, hv4, by linarith [hq.2.2.1]⟩⟩
+
+/-- non-vacuity: the point (1/10, 1/2) of the cell is inside the copy shifted by (−1, 0) of the square [4/5, 6/5] × [1/5, 4/5] -/
+example : insideEO ((1 : ℚ) / 10 - ((-1 : ℤ) : ℚ), (1 : ℚ) / 2 - ((0 : ℤ) : ℚ))
+    [((4 : ℚ) / 5, (1 : ℚ) / 5), ((6 : ℚ) / 5, (1 : ℚ) / 5), ((6 : ℚ) / 5, (4 : ℚ) / 5), ((4 : ℚ) / 5, (4 : ℚ) / 5)] := by
+  unfold insideEO; decide +kernel
+
 
 end C16
